@@ -148,4 +148,5 @@ def add_constraints(seq1, seq2, material = 'DNA'):
         con = ''.join([bin_iupac_rna[iupac_bin[x] & iupac_bin[y]] for x, y in zip(seq1, seq2)])
     if len(con) < len(seq1):
         raise ConstraintError('Incompatible constraints {seq1} and {seq2}.')
+    return con
 
